@@ -351,6 +351,15 @@ func (x *Interp) execStmt(fr *frame, st *Stmt) {
 		if x.cur.Idx == st.N && (st.Kind != "gen" || !x.sawFalsified) {
 			x.exec(fr, st.Body)
 		}
+	case "recovered":
+		// the code under test calls back into the test under a recover of its own (the safety net of a server around
+		// a handler, fmt formatting a value whose String method asserts): a Fatal, Fatalf or FailNow raised in there is
+		// swallowed as a panic - but the failure has been signalled on T all the same. Fatal kinds only: a raw panic
+		// that the user's own recover swallows is nobody's business.
+		func() {
+			defer func() { _ = recover() }()
+			x.exec(&frame{sc: fr.sc, where: "recovered"}, st.Body)
+		}()
 	case "goexit":
 		// the goroutine that runs the test case is made to exit (runtime.Goexit): this is how FailNow, Fatalf and
 		// SkipNow of a real *testing.T end a call - the enclosing test's T, which a property or a cleanup callback can
